@@ -26,6 +26,9 @@ EXPLANATION += (" R-CONSUME (discard mode) on the stop-time flush; the channel's
 
 
 
+EXPLANATION += (' R-JOIN-FRESH: a reader that registers in a later acquisition must not be handed frames of a stopped one - a new reader joins at the writer\'s head, or every stop flushes the monitor reader whether registered or not (one known finding on the pinned tree: the stop-time flush is guarded by the reader\'s registration while new readers join at the start of the lap).')
+
+
 def run(ctx, res):
     prog = ctx.program()
     res.extra["explanation"] = EXPLANATION
@@ -36,6 +39,8 @@ def run(ctx, res):
     res.guard(RR.rule_pairs, prog, res, ["acquire_stop"])
     res.guard(RR.rule_passthrough, prog, res)
     res.guard(RR.rule_consume, prog, res, "acquire_stop", "discard")
+    res.guard(RR.rule_join_fresh, prog, res)
+    res.require_min("R-JOIN-FRESH", 1)
     # channel clauses the monitor depends on (partial consumption, flush to empty)
     la = LockAnalysis(prog)
     res.guard(rule_empty_drained, prog, res)
